@@ -1,1 +1,854 @@
-//! (placeholder; filled in by the check that owns it)
+//! Dump models (plain values) and their serialisation to minidump bytes.
+//!
+//! A [`DumpModel`] is the list of streams of a dump **in directory order**; several streams of
+//! one type may be present (the property says the last one is served). The model is the ground
+//! truth a check compares a parse against. Serialisation goes through the `minidump-synth`
+//! crate (which does not share layouts with `minidump-common`) in either byte order and with the
+//! memory regions in a `MemoryList` or a `Memory64List`; what synth lacks is written as raw
+//! `test_assembler::Section`s (lists with the optional 4 bytes of padding after the count,
+//! thread records with non-zero scheduling fields) or, for the CPU contexts synth has no writer
+//! for, with `scroll::Pwrite` of the `md::CONTEXT_*` structs.
+use minidump::MinidumpRawContext;
+use minidump_common::format as md;
+use minidump_synth as synth;
+use scroll::ctx::{SizeWith, TryFromCtx, TryIntoCtx};
+use scroll::{Pread, Pwrite};
+use synth::{DumpSection, ListItem, SectionExtra, SimpleStream, SynthMinidump};
+use test_assembler::{Endian, Section};
+
+// stream type numbers, from the Microsoft / Breakpad / Crashpad headers (not from minidump-common)
+pub const ST_THREAD_LIST: u32 = 3;
+pub const ST_MODULE_LIST: u32 = 4;
+pub const ST_MEMORY_LIST: u32 = 5;
+pub const ST_EXCEPTION: u32 = 6;
+pub const ST_SYSTEM_INFO: u32 = 7;
+pub const ST_MEMORY64_LIST: u32 = 9;
+pub const ST_HANDLE_DATA: u32 = 12;
+pub const ST_UNLOADED_MODULE_LIST: u32 = 14;
+pub const ST_MISC_INFO: u32 = 15;
+pub const ST_MEMORY_INFO_LIST: u32 = 16;
+pub const ST_THREAD_NAMES: u32 = 24;
+pub const ST_LINUX_MAPS: u32 = 0x4767_0009;
+pub const ST_CRASHPAD_INFO: u32 = 0x4350_0001;
+
+pub fn scroll_endian(e: Endian) -> scroll::Endian {
+    match e {
+        Endian::Little => scroll::LE,
+        Endian::Big => scroll::BE,
+    }
+}
+
+// ---------------------------------------------------------------------------------------------
+// CPU contexts
+
+#[derive(Clone, Copy, Debug, PartialEq, Eq, Hash, PartialOrd, Ord)]
+pub enum CpuKind {
+    X86,
+    Amd64,
+    Arm,
+    Arm64,
+    Arm64Old,
+    Ppc,
+    Ppc64,
+    Sparc,
+    Mips,
+}
+impl CpuKind {
+    pub const ALL: [CpuKind; 9] =
+        [CpuKind::X86, CpuKind::Amd64, CpuKind::Arm, CpuKind::Arm64, CpuKind::Arm64Old, CpuKind::Ppc, CpuKind::Ppc64, CpuKind::Sparc, CpuKind::Mips];
+    /// `MINIDUMP_SYSTEM_INFO::processor_architecture` value that selects this context layout.
+    pub fn arch(self) -> u16 {
+        match self {
+            CpuKind::X86 => 0,
+            CpuKind::Mips => 1,
+            CpuKind::Ppc => 3,
+            CpuKind::Arm => 5,
+            CpuKind::Amd64 => 9,
+            CpuKind::Arm64 => 12,
+            CpuKind::Sparc => 0x8001,
+            CpuKind::Ppc64 => 0x8002,
+            CpuKind::Arm64Old => 0x8003,
+        }
+    }
+    pub fn from_arch(arch: u16) -> Option<CpuKind> {
+        // 10 = IA32_ON_WIN64 shares the x86 layout
+        if arch == 10 {
+            return Some(CpuKind::X86);
+        }
+        CpuKind::ALL.iter().copied().find(|k| k.arch() == arch)
+    }
+    pub fn name(self) -> &'static str {
+        match self {
+            CpuKind::X86 => "x86",
+            CpuKind::Amd64 => "amd64",
+            CpuKind::Arm => "arm",
+            CpuKind::Arm64 => "arm64",
+            CpuKind::Arm64Old => "arm64_old",
+            CpuKind::Ppc => "ppc",
+            CpuKind::Ppc64 => "ppc64",
+            CpuKind::Sparc => "sparc",
+            CpuKind::Mips => "mips",
+        }
+    }
+    /// true when instruction and stack pointer are 32-bit fields in the context layout
+    pub fn narrow(self) -> bool {
+        matches!(self, CpuKind::X86 | CpuKind::Arm | CpuKind::Ppc)
+    }
+}
+
+/// A CPU context: every byte of the layout comes from a fill pattern, except `context_flags`
+/// (the value the layout's CPU requires), the instruction pointer and the stack pointer.
+#[derive(Clone, Debug, PartialEq, Eq, Hash)]
+pub struct ContextM {
+    pub kind: CpuKind,
+    /// 0: all zero, 1: all ones, 2: position-dependent pattern
+    pub fill: u8,
+    pub ip: u64,
+    pub sp: u64,
+    /// use the writer of minidump-synth (x86, amd64, arm64 only; implies fill 0)
+    pub via_synth: bool,
+}
+
+fn fill_byte(fill: u8, k: usize) -> u8 {
+    match fill {
+        0 => 0,
+        1 => 0xff,
+        _ => (k.wrapping_mul(7).wrapping_add(3)) as u8,
+    }
+}
+
+fn build_ctx<T>(fill: u8, e: scroll::Endian, fix: impl FnOnce(&mut T)) -> Vec<u8>
+where
+    T: for<'a> TryFromCtx<'a, scroll::Endian, [u8], Error = scroll::Error> + TryIntoCtx<scroll::Endian, [u8], Error = scroll::Error> + SizeWith<scroll::Endian>,
+{
+    let n = T::size_with(&scroll::LE);
+    let src: Vec<u8> = (0..n).map(|k| fill_byte(fill, k)).collect();
+    let mut v: T = src.pread_with(0, scroll::LE).expect("context from pattern");
+    fix(&mut v);
+    let mut out = vec![0u8; n];
+    let w = out.pwrite_with(v, 0, e).expect("context write");
+    assert_eq!(w, n, "context size");
+    out
+}
+
+fn le_of<T>(v: T) -> Vec<u8>
+where
+    T: TryIntoCtx<scroll::Endian, [u8], Error = scroll::Error> + SizeWith<scroll::Endian>,
+{
+    let n = T::size_with(&scroll::LE);
+    let mut out = vec![0u8; n];
+    let w = out.pwrite_with(v, 0, scroll::LE).expect("context write");
+    assert_eq!(w, n, "context size");
+    out
+}
+
+/// Canonical (little-endian) image of a parsed raw context, for comparison with `ContextM::bytes(LE)`.
+pub fn raw_context_le(raw: &MinidumpRawContext) -> (CpuKind, Vec<u8>) {
+    match raw {
+        MinidumpRawContext::X86(c) => (CpuKind::X86, le_of(c.clone())),
+        MinidumpRawContext::Amd64(c) => (CpuKind::Amd64, le_of(c.clone())),
+        MinidumpRawContext::Arm(c) => (CpuKind::Arm, le_of(c.clone())),
+        MinidumpRawContext::Arm64(c) => (CpuKind::Arm64, le_of(c.clone())),
+        MinidumpRawContext::OldArm64(c) => (CpuKind::Arm64Old, le_of(*c)),
+        MinidumpRawContext::Ppc(c) => (CpuKind::Ppc, le_of(c.clone())),
+        MinidumpRawContext::Ppc64(c) => (CpuKind::Ppc64, le_of(c.clone())),
+        MinidumpRawContext::Sparc(c) => (CpuKind::Sparc, le_of(c.clone())),
+        MinidumpRawContext::Mips(c) => (CpuKind::Mips, le_of(c.clone())),
+    }
+}
+
+impl ContextM {
+    pub fn new(kind: CpuKind, fill: u8, ip: u64, sp: u64) -> ContextM {
+        let m = if kind.narrow() { 0xffff_ffff } else { u64::MAX };
+        ContextM { kind, fill, ip: ip & m, sp: sp & m, via_synth: false }
+    }
+    pub fn synth(kind: CpuKind, ip: u64, sp: u64) -> ContextM {
+        assert!(matches!(kind, CpuKind::X86 | CpuKind::Amd64 | CpuKind::Arm64), "synth has no writer for {kind:?}");
+        let mut c = ContextM::new(kind, 0, ip, sp);
+        c.via_synth = true;
+        c
+    }
+    /// The context record in byte order `e`.
+    pub fn bytes(&self, e: Endian) -> Vec<u8> {
+        let (ip, sp, f, se) = (self.ip, self.sp, self.fill, scroll_endian(e));
+        if self.via_synth {
+            let s = match self.kind {
+                CpuKind::X86 => synth::x86_context(e, ip as u32, sp as u32),
+                CpuKind::Amd64 => synth::amd64_context(e, ip, sp),
+                CpuKind::Arm64 => synth::arm64_context(e, ip, sp),
+                _ => unreachable!(),
+            };
+            return s.get_contents().expect("synth context");
+        }
+        match self.kind {
+            CpuKind::X86 => build_ctx::<md::CONTEXT_X86>(f, se, |c| {
+                c.context_flags = 0x0001_003f;
+                c.eip = ip as u32;
+                c.esp = sp as u32;
+            }),
+            CpuKind::Amd64 => build_ctx::<md::CONTEXT_AMD64>(f, se, |c| {
+                c.context_flags = 0x0010_001f;
+                c.rip = ip;
+                c.rsp = sp;
+            }),
+            CpuKind::Arm => build_ctx::<md::CONTEXT_ARM>(f, se, |c| {
+                c.context_flags = 0x4000_000f;
+                c.iregs[15] = ip as u32;
+                c.iregs[13] = sp as u32;
+            }),
+            CpuKind::Arm64 => build_ctx::<md::CONTEXT_ARM64>(f, se, |c| {
+                c.context_flags = 0x0040_001f;
+                c.pc = ip;
+                c.sp = sp;
+            }),
+            CpuKind::Arm64Old => build_ctx::<md::CONTEXT_ARM64_OLD>(f, se, |c| {
+                c.context_flags = 0x8000_0006;
+                c.pc = ip;
+                c.sp = sp;
+            }),
+            CpuKind::Ppc => build_ctx::<md::CONTEXT_PPC>(f, se, |c| {
+                c.context_flags = 0x2000_0007;
+                c.srr0 = ip as u32;
+                c.gpr[1] = sp as u32;
+            }),
+            CpuKind::Ppc64 => build_ctx::<md::CONTEXT_PPC64>(f, se, |c| {
+                c.context_flags = 0x0100_0007;
+                c.srr0 = ip;
+                c.gpr[1] = sp;
+            }),
+            CpuKind::Sparc => build_ctx::<md::CONTEXT_SPARC>(f, se, |c| {
+                c.context_flags = 0x1000_0007;
+                c.pc = ip;
+                c.g_r[14] = sp;
+            }),
+            CpuKind::Mips => build_ctx::<md::CONTEXT_MIPS>(f, se, |c| {
+                c.context_flags = 0x0004_0007;
+                c.epc = ip;
+                c.iregs[29] = sp;
+            }),
+        }
+    }
+}
+
+// ---------------------------------------------------------------------------------------------
+// stream models
+
+pub type GuidM = (u32, u16, u16, [u8; 8]);
+
+#[derive(Clone, Debug, PartialEq, Eq, Hash)]
+pub enum Cv {
+    None,
+    /// `file` is written verbatim after the age (the generator decides about the NUL)
+    Pdb70 { guid: GuidM, age: u32, file: Vec<u8> },
+    Pdb20 { offset: u32, signature: u32, age: u32, file: Vec<u8> },
+    Elf { id: Vec<u8> },
+    Unknown { signature: u32, data: Vec<u8> },
+}
+impl Cv {
+    pub fn kind(&self) -> &'static str {
+        match self {
+            Cv::None => "none",
+            Cv::Pdb70 { .. } => "PDB70",
+            Cv::Pdb20 { .. } => "PDB20",
+            Cv::Elf { .. } => "ELF",
+            Cv::Unknown { .. } => "unknown",
+        }
+    }
+    /// size of the CodeView record in the file
+    pub fn len(&self) -> usize {
+        match self {
+            Cv::None => 0,
+            Cv::Pdb70 { file, .. } => 24 + file.len(),
+            Cv::Pdb20 { file, .. } => 16 + file.len(),
+            Cv::Elf { id } => 4 + id.len(),
+            Cv::Unknown { data, .. } => 4 + data.len(),
+        }
+    }
+    pub fn is_empty(&self) -> bool {
+        self.len() == 0
+    }
+}
+
+/// The 13 words of VS_FIXEDFILEINFO in declaration order.
+pub type VersionM = [u32; 13];
+pub const VS_SIGNATURE: u32 = 0xfeef_04bd;
+pub const VS_STRUCVERSION: u32 = 0x0001_0000;
+
+#[derive(Clone, Debug, PartialEq, Eq, Hash)]
+pub struct ModuleM {
+    pub base: u64,
+    pub size: u32,
+    pub checksum: u32,
+    pub timestamp: u32,
+    pub name: String,
+    pub version: VersionM,
+    pub cv: Cv,
+}
+
+#[derive(Clone, Debug, PartialEq, Eq, Hash)]
+pub struct UnloadedM {
+    pub base: u64,
+    pub size: u32,
+    pub checksum: u32,
+    pub timestamp: u32,
+    pub name: String,
+}
+
+#[derive(Clone, Debug, PartialEq, Eq, Hash)]
+pub struct ThreadM {
+    pub id: u32,
+    pub suspend_count: u32,
+    pub priority_class: u32,
+    pub priority: u32,
+    pub teb: u64,
+    pub stack_base: u64,
+    /// stack bytes stored with the thread; empty = the descriptor is null (size 0, rva 0) and the
+    /// documented fallback resolves `stack_base` through the memory list
+    pub stack: Vec<u8>,
+    pub context: Option<ContextM>,
+}
+
+#[derive(Clone, Debug, PartialEq, Eq, Hash)]
+pub struct RegionM {
+    pub base: u64,
+    pub bytes: Vec<u8>,
+}
+
+#[derive(Clone, Debug, PartialEq, Eq, Hash)]
+pub struct MemInfoM {
+    pub base: u64,
+    pub alloc_base: u64,
+    pub alloc_protection: u32,
+    pub size: u64,
+    pub state: u32,
+    pub protection: u32,
+    pub ty: u32,
+}
+
+#[derive(Clone, Debug, PartialEq, Eq, Hash)]
+pub struct ExceptionM {
+    pub thread_id: u32,
+    pub code: u32,
+    pub flags: u32,
+    pub record: u64,
+    pub address: u64,
+    pub nparams: u32,
+    pub info: [u64; 15],
+    pub context: Option<ContextM>,
+}
+
+#[derive(Clone, Debug, PartialEq, Eq, Hash)]
+pub struct SysInfoM {
+    pub arch: u16,
+    pub level: u16,
+    pub revision: u16,
+    pub nproc: u8,
+    pub product_type: u8,
+    pub major: u32,
+    pub minor: u32,
+    pub build: u32,
+    pub platform_id: u32,
+    pub csd: Option<String>,
+    pub suite_mask: u16,
+    pub reserved2: u16,
+    /// the 24 bytes of CPU_INFORMATION as six words
+    pub cpu_words: [u32; 6],
+}
+impl SysInfoM {
+    pub fn new(arch: u16, platform_id: u32) -> SysInfoM {
+        SysInfoM { arch, level: 6, revision: 0x0a02, nproc: 4, product_type: 1, major: 10, minor: 0, build: 19045, platform_id, csd: None, suite_mask: 0x100, reserved2: 0, cpu_words: [0x756e_6547, 0x4965_6e69, 0x6c65_746e, 0x0009_06ea, 0xbfeb_fbff, 0] }
+    }
+}
+
+#[derive(Clone, Debug, PartialEq, Eq, Hash)]
+pub struct TzM {
+    pub id: u32,
+    pub bias: i32,
+    pub std_name: [u16; 32],
+    pub std_date: [u16; 8],
+    pub std_bias: i32,
+    pub dl_name: [u16; 32],
+    pub dl_date: [u16; 8],
+    pub dl_bias: i32,
+}
+
+#[derive(Clone, Debug, PartialEq, Eq, Hash)]
+pub struct Misc5M {
+    pub context_size: u32,
+    pub enabled_features: u64,
+    /// features[i] = (seed * i, seed + i)
+    pub feature_seed: u32,
+    pub cookie: Option<u32>,
+}
+impl Misc5M {
+    pub fn feature(&self, i: usize) -> (u32, u32) {
+        (self.feature_seed.wrapping_mul(i as u32), self.feature_seed.wrapping_add(i as u32))
+    }
+}
+
+#[derive(Clone, Debug, Default, PartialEq, Eq, Hash)]
+pub struct MiscM {
+    pub process_id: Option<u32>,
+    pub times: Option<[u32; 3]>,
+    pub power: Option<[u32; 5]>,
+    pub integrity: Option<u32>,
+    pub execute_flags: Option<u32>,
+    pub protected: Option<u32>,
+    pub tz: Option<TzM>,
+    /// (build_string, dbg_bld_str) as UTF-16 code units, zero padded by the writer
+    pub build: Option<(Vec<u16>, Vec<u16>)>,
+    pub misc5: Option<Misc5M>,
+}
+impl MiscM {
+    /// MINIDUMP_MISC_INFO revision the writer emits (1..=5)
+    pub fn version(&self) -> u32 {
+        if self.misc5.is_some() {
+            5
+        } else if self.build.is_some() {
+            4
+        } else if self.integrity.is_some() || self.execute_flags.is_some() || self.protected.is_some() || self.tz.is_some() {
+            3
+        } else if self.power.is_some() {
+            2
+        } else {
+            1
+        }
+    }
+}
+
+#[derive(Clone, Debug, PartialEq, Eq, Hash)]
+pub struct MapLineM {
+    pub start: u64,
+    pub end: u64,
+    pub perms: String,
+    pub offset: u64,
+    pub dev: (u32, u32),
+    pub inode: u64,
+    /// text after the inode column ("" = anonymous)
+    pub path: String,
+}
+impl MapLineM {
+    pub fn line(&self) -> String {
+        format!("{:x}-{:x} {} {:08x} {:02x}:{:02x} {} {}\n", self.start, self.end, self.perms, self.offset, self.dev.0, self.dev.1, self.inode, self.path)
+    }
+}
+
+#[derive(Clone, Debug, PartialEq, Eq, Hash)]
+pub struct HandleM {
+    pub handle: u64,
+    pub type_name: Option<String>,
+    pub object_name: Option<String>,
+    pub attributes: u32,
+    pub granted_access: u32,
+    pub handle_count: u32,
+    pub pointer_count: u32,
+}
+
+#[derive(Clone, Debug, PartialEq, Eq, Hash)]
+pub enum AnnM {
+    Invalid,
+    Str(String),
+    Custom(u16, Vec<u8>),
+}
+
+#[derive(Clone, Debug, PartialEq, Eq, Hash)]
+pub struct CrashpadModuleM {
+    pub index: u32,
+    pub list: Vec<String>,
+    pub simple: Vec<(String, String)>,
+    pub objects: Vec<(String, AnnM)>,
+}
+
+#[derive(Clone, Debug, PartialEq, Eq, Hash)]
+pub struct CrashpadM {
+    pub report_id: GuidM,
+    pub client_id: GuidM,
+    pub simple: Vec<(String, String)>,
+    pub modules: Vec<CrashpadModuleM>,
+}
+
+#[derive(Clone, Debug, PartialEq, Eq, Hash)]
+pub enum StreamM {
+    SystemInfo(SysInfoM),
+    /// `pad4`: 4 bytes of padding between the count and the first entry (legal for the
+    /// count-prefixed lists: threads, thread names, modules, MemoryList)
+    Threads { items: Vec<ThreadM>, pad4: bool },
+    ThreadNames { items: Vec<(u32, String)>, pad4: bool },
+    Modules { items: Vec<ModuleM>, pad4: bool },
+    /// `header`: size_of_header of the extended list header (12 = minimal)
+    Unloaded { items: Vec<UnloadedM>, header: u32 },
+    /// written as MemoryList (honouring pad4) or as Memory64List, as the serialiser is told
+    Memory { items: Vec<RegionM>, pad4: bool },
+    MemoryInfo { items: Vec<MemInfoM>, header: u32 },
+    Exception(ExceptionM),
+    Misc(MiscM),
+    LinuxMaps(Vec<MapLineM>),
+    Handles(Vec<HandleM>),
+    Crashpad(CrashpadM),
+}
+impl StreamM {
+    pub fn kind(&self) -> &'static str {
+        match self {
+            StreamM::SystemInfo(_) => "system_info",
+            StreamM::Threads { .. } => "threads",
+            StreamM::ThreadNames { .. } => "thread_names",
+            StreamM::Modules { .. } => "modules",
+            StreamM::Unloaded { .. } => "unloaded",
+            StreamM::Memory { .. } => "memory",
+            StreamM::MemoryInfo { .. } => "memory_info",
+            StreamM::Exception(_) => "exception",
+            StreamM::Misc(_) => "misc",
+            StreamM::LinuxMaps(_) => "linux_maps",
+            StreamM::Handles(_) => "handles",
+            StreamM::Crashpad(_) => "crashpad",
+        }
+    }
+    pub fn items(&self) -> usize {
+        match self {
+            StreamM::Threads { items, .. } => items.len(),
+            StreamM::ThreadNames { items, .. } => items.len(),
+            StreamM::Modules { items, .. } => items.len(),
+            StreamM::Unloaded { items, .. } => items.len(),
+            StreamM::Memory { items, .. } => items.len(),
+            StreamM::MemoryInfo { items, .. } => items.len(),
+            StreamM::LinuxMaps(v) => v.len(),
+            StreamM::Handles(v) => v.len(),
+            StreamM::Crashpad(c) => c.simple.len() + c.modules.len(),
+            _ => 1,
+        }
+    }
+}
+
+pub const STREAM_KINDS: [&str; 12] =
+    ["system_info", "threads", "thread_names", "modules", "unloaded", "memory", "memory_info", "exception", "misc", "linux_maps", "handles", "crashpad"];
+
+#[derive(Clone, Debug, Default, PartialEq, Eq, Hash)]
+pub struct DumpModel {
+    /// streams in directory order
+    pub streams: Vec<StreamM>,
+}
+
+fn utf16_len(s: &str) -> u64 {
+    s.encode_utf16().count() as u64
+}
+
+fn pad16<const N: usize>(v: &[u16]) -> [u16; N] {
+    let mut a = [0u16; N];
+    for (i, c) in v.iter().take(N).enumerate() {
+        a[i] = *c;
+    }
+    a
+}
+
+fn systime(v: &[u16; 8]) -> md::SYSTEMTIME {
+    md::SYSTEMTIME { year: v[0], month: v[1], day_of_week: v[2], day: v[3], hour: v[4], minute: v[5], second: v[6], milliseconds: v[7] }
+}
+
+/// Count-prefixed list: through synth's `ListStream`, or hand-laid with the 4 padding bytes.
+fn add_list<T>(d: SynthMinidump, ty: u32, e: Endian, items: Vec<T>, pad4: bool) -> SynthMinidump
+where
+    T: ListItem + Into<Section>,
+{
+    if !pad4 {
+        let mut l = synth::ListStream::new(ty, e);
+        for i in items {
+            l = l.add(i);
+        }
+        d.add_stream(l)
+    } else {
+        let mut s = Section::with_endian(e).D32(items.len() as u32).D32(0u32);
+        for i in items {
+            let sec: Section = i.into();
+            let at = sec.file_offset();
+            s = s.mark(&at).append_section(sec);
+        }
+        d.add_stream(SimpleStream { stream_type: ty, section: s })
+    }
+}
+
+impl DumpModel {
+    /// The last stream of each kind (the one the property says is served).
+    pub fn served(&self, kind: &str) -> Option<&StreamM> {
+        self.streams.iter().rev().find(|s| s.kind() == kind)
+    }
+    pub fn served_system_info(&self) -> Option<&SysInfoM> {
+        match self.served("system_info") {
+            Some(StreamM::SystemInfo(s)) => Some(s),
+            _ => None,
+        }
+    }
+    pub fn served_regions(&self) -> Option<&Vec<RegionM>> {
+        match self.served("memory") {
+            Some(StreamM::Memory { items, .. }) => Some(items),
+            _ => None,
+        }
+    }
+    /// short description for evidence / replay files
+    pub fn summary(&self) -> serde_json::Value {
+        serde_json::Value::Array(self.streams.iter().map(|s| serde_json::json!({"stream": s.kind(), "items": s.items()})).collect())
+    }
+
+    /// Serialise in byte order `e`; memory streams become `Memory64List`s when `mem64`.
+    pub fn serialize(&self, e: Endian, mem64: bool) -> Vec<u8> {
+        let mut d = SynthMinidump::with_endian(e);
+        // synth's Exception and SystemInfo take numeric locations, so what they point at is laid
+        // out first, right behind the 32-byte header, where the offsets are known.
+        let mut cursor: u64 = 32;
+        let mut exc_loc: Vec<(u32, u32)> = vec![];
+        let mut csd_rva: Vec<u32> = vec![];
+        for s in &self.streams {
+            match s {
+                StreamM::Exception(x) => match &x.context {
+                    Some(c) => {
+                        let sec = Section::with_endian(e).append_bytes(&c.bytes(e));
+                        let (len, at) = (sec.size(), sec.file_offset());
+                        d = d.add(sec);
+                        assert_eq!(at.value(), Some(cursor), "exception context offset");
+                        exc_loc.push((len as u32, cursor as u32));
+                        cursor += len;
+                    }
+                    None => exc_loc.push((0, 0)),
+                },
+                StreamM::SystemInfo(si) => match &si.csd {
+                    Some(csd) => {
+                        let ds = synth::DumpString::new(csd, e);
+                        let at = ds.file_offset();
+                        d = d.add(ds);
+                        assert_eq!(at.value(), Some(cursor), "csd string offset");
+                        csd_rva.push(cursor as u32);
+                        cursor += 4 + 2 * utf16_len(csd);
+                    }
+                    None => csd_rva.push(0),
+                },
+                _ => {}
+            }
+        }
+        let (mut exc_i, mut csd_i) = (0, 0);
+        for s in &self.streams {
+            d = match s {
+                StreamM::SystemInfo(si) => {
+                    let mut x = synth::SystemInfo::new(e);
+                    x.processor_architecture = si.arch;
+                    x.processor_level = si.level;
+                    x.processor_revision = si.revision;
+                    x.number_of_processors = si.nproc;
+                    x.product_type = si.product_type;
+                    x.major_version = si.major;
+                    x.minor_version = si.minor;
+                    x.build_number = si.build;
+                    x.platform_id = si.platform_id;
+                    x.csd_version_rva = csd_rva[csd_i];
+                    csd_i += 1;
+                    x.suite_mask = si.suite_mask;
+                    x.reserved2 = si.reserved2;
+                    let w = si.cpu_words;
+                    x.cpu = synth::CpuInfo::X86CpuInfo { vendor_id: [w[0], w[1], w[2]], version_information: w[3], feature_information: w[4], amd_extended_cpu_features: w[5] };
+                    d.add_stream(x)
+                }
+                StreamM::Threads { items, pad4 } => {
+                    let mut recs = vec![];
+                    for t in items {
+                        let mut rec = Section::with_endian(e).D32(t.id).D32(t.suspend_count).D32(t.priority_class).D32(t.priority).D64(t.teb);
+                        if t.stack.is_empty() {
+                            rec = rec.D64(t.stack_base).D32(0u32).D32(0u32);
+                        } else {
+                            let stack = synth::Memory::with_section(Section::with_endian(e).append_bytes(&t.stack), t.stack_base);
+                            rec = rec.cite_memory(&stack);
+                            d = d.add(stack);
+                        }
+                        match &t.context {
+                            Some(c) => {
+                                let cs = Section::with_endian(e).append_bytes(&c.bytes(e));
+                                rec = rec.cite_location(&cs);
+                                d = d.add(cs);
+                            }
+                            None => rec = rec.D32(0u32).D32(0u32),
+                        }
+                        recs.push(rec);
+                    }
+                    add_list(d, ST_THREAD_LIST, e, recs, *pad4)
+                }
+                StreamM::ThreadNames { items, pad4 } => {
+                    let mut recs = vec![];
+                    for (id, name) in items {
+                        let ds = synth::DumpString::new(name, e);
+                        recs.push(synth::ThreadName::new(e, *id, Some(&ds)));
+                        d = d.add(ds);
+                    }
+                    add_list(d, ST_THREAD_NAMES, e, recs, *pad4)
+                }
+                StreamM::Modules { items, pad4 } => {
+                    let mut recs = vec![];
+                    for m in items {
+                        let name = synth::DumpString::new(&m.name, e);
+                        let v = &m.version;
+                        let vs = md::VS_FIXEDFILEINFO {
+                            signature: v[0],
+                            struct_version: v[1],
+                            file_version_hi: v[2],
+                            file_version_lo: v[3],
+                            product_version_hi: v[4],
+                            product_version_lo: v[5],
+                            file_flags_mask: v[6],
+                            file_flags: v[7],
+                            file_os: v[8],
+                            file_type: v[9],
+                            file_subtype: v[10],
+                            file_date_hi: v[11],
+                            file_date_lo: v[12],
+                        };
+                        let mut sm = synth::Module::new(e, m.base, m.size, &name, m.timestamp, m.checksum, Some(&vs));
+                        d = d.add(name);
+                        let se = Section::with_endian(e);
+                        let cv = match &m.cv {
+                            Cv::None => None,
+                            Cv::Pdb70 { guid, age, file } => Some(se.D32(0x5344_5352u32).D32(guid.0).D16(guid.1).D16(guid.2).append_bytes(&guid.3).D32(*age).append_bytes(file)),
+                            Cv::Pdb20 { offset, signature, age, file } => Some(se.D32(0x3031_424eu32).D32(*offset).D32(*signature).D32(*age).append_bytes(file)),
+                            Cv::Elf { id } => Some(se.D32(0x4270_454cu32).append_bytes(id)),
+                            Cv::Unknown { signature, data } => Some(se.D32(*signature).append_bytes(data)),
+                        };
+                        if let Some(cv) = cv {
+                            sm = sm.cv_record(&cv);
+                            d = d.add(cv);
+                        }
+                        recs.push(sm);
+                    }
+                    add_list(d, ST_MODULE_LIST, e, recs, *pad4)
+                }
+                StreamM::Unloaded { items, header } => {
+                    let mut l = synth::ExListStream::new_with_header_size(ST_UNLOADED_MODULE_LIST, *header as usize, 24, e);
+                    for m in items {
+                        let name = synth::DumpString::new(&m.name, e);
+                        l = l.add(synth::UnloadedModule::new(e, m.base, m.size, &name, m.timestamp, m.checksum));
+                        d = d.add(name);
+                    }
+                    d.add_stream(l)
+                }
+                StreamM::Memory { items, pad4 } => {
+                    if mem64 {
+                        let mut data = Section::with_endian(e);
+                        let mut l = synth::Memory64ListStream::new(e, &data.file_offset());
+                        for r in items {
+                            let m = synth::Memory::with_section(Section::with_endian(e).append_bytes(&r.bytes), r.base);
+                            l = l.add_memory(&m);
+                            data = data.append_section(m);
+                        }
+                        d.add_stream(l).add(data)
+                    } else {
+                        let mut recs = vec![];
+                        for r in items {
+                            let m = synth::Memory::with_section(Section::with_endian(e).append_bytes(&r.bytes), r.base);
+                            recs.push(m.cite_memory_in(Section::with_endian(e)));
+                            d = d.add(m);
+                        }
+                        add_list(d, ST_MEMORY_LIST, e, recs, *pad4)
+                    }
+                }
+                StreamM::MemoryInfo { items, header } => {
+                    let mut l = synth::ExListStream::new_with_header_size(ST_MEMORY_INFO_LIST, *header as usize, 48, e);
+                    for m in items {
+                        l = l.add(synth::MemoryInfo::new(e, m.base, m.alloc_base, m.alloc_protection, m.size, m.state, m.protection, m.ty));
+                    }
+                    d.add_stream(l)
+                }
+                StreamM::Exception(x) => {
+                    let mut s = synth::Exception::new(e);
+                    s.thread_id = x.thread_id;
+                    s.exception_record.exception_code = x.code;
+                    s.exception_record.exception_flags = x.flags;
+                    s.exception_record.exception_record = x.record;
+                    s.exception_record.exception_address = x.address;
+                    s.exception_record.number_parameters = x.nparams;
+                    s.exception_record.exception_information = x.info;
+                    s.thread_context = exc_loc[exc_i];
+                    exc_i += 1;
+                    d.add_stream(s)
+                }
+                StreamM::Misc(m) => {
+                    let mut s = synth::MiscStream::new(e);
+                    s.process_id = m.process_id;
+                    s.process_times = m.times.map(|t| synth::MiscFieldsProcessTimes { process_create_time: t[0], process_user_time: t[1], process_kernel_time: t[2] });
+                    s.power_info = m.power.map(|p| synth::MiscFieldsPowerInfo {
+                        processor_max_mhz: p[0],
+                        processor_current_mhz: p[1],
+                        processor_mhz_limit: p[2],
+                        processor_max_idle_state: p[3],
+                        processor_current_idle_state: p[4],
+                    });
+                    s.process_integrity_level = m.integrity;
+                    s.process_execute_flags = m.execute_flags;
+                    s.protected_process = m.protected;
+                    s.time_zone = m.tz.as_ref().map(|t| synth::MiscFieldsTimeZone {
+                        time_zone_id: t.id,
+                        time_zone: md::TIME_ZONE_INFORMATION {
+                            bias: t.bias,
+                            standard_name: t.std_name,
+                            standard_date: systime(&t.std_date),
+                            standard_bias: t.std_bias,
+                            daylight_name: t.dl_name,
+                            daylight_date: systime(&t.dl_date),
+                            daylight_bias: t.dl_bias,
+                        },
+                    });
+                    s.build_strings = m.build.as_ref().map(|(a, b)| synth::MiscFieldsBuildString { build_string: pad16::<260>(a), dbg_bld_str: pad16::<40>(b) });
+                    s.misc_5 = m.misc5.as_ref().map(|x| {
+                        let mut features = [md::XSTATE_FEATURE::default(); 64];
+                        for (i, f) in features.iter_mut().enumerate() {
+                            let (o, z) = x.feature(i);
+                            f.offset = o;
+                            f.size = z;
+                        }
+                        synth::MiscInfo5Fields { xstate_data: md::XSTATE_CONFIG_FEATURE_MSC_INFO { size_of_info: 528, context_size: x.context_size, enabled_features: x.enabled_features, features }, process_cookie: x.cookie }
+                    });
+                    d.add_stream(s)
+                }
+                StreamM::LinuxMaps(lines) => {
+                    let text: String = lines.iter().map(|l| l.line()).collect();
+                    d.add_stream(SimpleStream { stream_type: ST_LINUX_MAPS, section: Section::with_endian(e).append_bytes(text.as_bytes()) })
+                }
+                StreamM::Handles(items) => {
+                    let mut l = synth::ExListStream::new_with_header_size(ST_HANDLE_DATA, 16, 32, e);
+                    for h in items {
+                        let tn = h.type_name.as_ref().map(|s| synth::DumpString::new(s, e));
+                        let on = h.object_name.as_ref().map(|s| synth::DumpString::new(s, e));
+                        l = l.add(synth::HandleDescriptor::new(e, h.handle, tn.as_ref(), on.as_ref(), h.attributes, h.granted_access, h.handle_count, h.pointer_count));
+                        if let Some(s) = tn {
+                            d = d.add(s);
+                        }
+                        if let Some(s) = on {
+                            d = d.add(s);
+                        }
+                    }
+                    d.add_stream(l)
+                }
+                StreamM::Crashpad(c) => {
+                    let g = |g: &GuidM| md::GUID { data1: g.0, data2: g.1, data3: g.2, data4: g.3 };
+                    let mut s = synth::CrashpadInfo::new(e).report_id(g(&c.report_id)).client_id(g(&c.client_id));
+                    for (k, v) in &c.simple {
+                        s = s.add_simple_annotation(k, v);
+                    }
+                    for m in &c.modules {
+                        let mut mi = synth::ModuleCrashpadInfo::new(m.index, e);
+                        for v in &m.list {
+                            mi = mi.add_list_annotation(v);
+                        }
+                        for (k, v) in &m.simple {
+                            mi = mi.add_simple_annotation(k, v);
+                        }
+                        for (k, v) in &m.objects {
+                            let av = match v {
+                                AnnM::Invalid => synth::AnnotationValue::Invalid,
+                                AnnM::Str(x) => synth::AnnotationValue::String(x.clone()),
+                                AnnM::Custom(t, b) => synth::AnnotationValue::Custom(*t, b.clone()),
+                            };
+                            mi = mi.add_annotation_object(k, av);
+                        }
+                        s = s.add_module(mi);
+                    }
+                    d.add_stream(s)
+                }
+            };
+        }
+        d.finish().expect("all labels of the synthetic dump resolve")
+    }
+}
